@@ -67,29 +67,30 @@ def leg_ctor(part, tier, shard, nshards):
     drive(part, "constructor", ctor_cases(tier), shard, nshards, check_ctor)
 
 
-def jobs(tier):
+def harnesses(tier):
     def has_two_enq(prog):
         return sum(1 for o in prog if o[0] == "enq") >= 2
 
     if tier == "quick":
-        j = P.curated_jobs(CHAINS, [(1, 0), (2, 0), (2, 1)], "sync", 1, 0)
-        j += P.curated_jobs(["P16-chain-after-start", "P23-chain3", "P11-saturate"], [(2, 2), (3, 0), (3, 1)], "sync", 1, 0)
-        j += P.curated_jobs(["P3-idle-timeout-then-enqueue", "P24-enq-during-idle-retire", "P22-backlog-then-chain", "P16-chain-after-start"],
-                            [(2, 0), (2, 1)], "sync", 1, 1)
-        j += P.curated_jobs(["P19-chain-with-second-submitter"], [(2, 0)], "sync", 1, 0)
-        j += P.curated_jobs(["P16-chain-after-start", "P17-chain-before-start", "P9-start-races-submitter"], [(2, 0), (2, 1)], "line", 1, 0)
-        j += P.generated_jobs(3, [(2, 0), (2, 2)], "sync", 1, 0, keep=has_two_enq)
+        h = P.curated_h(CHAINS + HEAVY, [(1, 0), (1, 1), (2, 0), (2, 1)], "sync")
+        h += P.curated_h(["P16-chain-after-start", "P23-chain3", "P11-saturate", "P9-start-races-submitter", "P2-two-submitters"],
+                         [(2, 2), (3, 0), (3, 1)], "sync")
+        h += P.curated_h(["P16-chain-after-start", "P17-chain-before-start", "P9-start-races-submitter", "P2-two-submitters",
+                          "P24-enq-during-idle-retire"], [(1, 1), (2, 0), (2, 1)], "line")
+        h += P.generated_h(3, [(1, 1), (2, 0), (2, 2)], "sync", keep=has_two_enq)
     else:
         sizes = [(1, 0), (1, 1), (2, 0), (2, 1), (2, 2), (3, 0), (3, 1), (3, 3)]
-        j = P.curated_jobs(CHAINS + HEAVY, sizes, "sync", 1, 1)
-        j += P.curated_jobs(CHAINS, [(2, 0), (2, 1), (3, 1)], "sync", 2, 1)
-        j += P.curated_jobs(CHAINS, [(2, 0), (2, 1)], "line", 1, 1)
-        j += P.generated_jobs(4, [(2, 0), (2, 1), (3, 0)], "sync", 1, 1, keep=has_two_enq)
-    return j
+        h = P.curated_h(CHAINS + HEAVY, sizes, "sync")
+        h += P.curated_h(CHAINS + HEAVY, [(1, 1), (2, 0), (2, 1), (3, 1)], "line")
+        h += P.generated_h(4, [(1, 1), (2, 0), (2, 1), (3, 0)], "sync", keep=has_two_enq)
+    return h
+
+
+BUDGET = {"quick": 1200, "thorough": 60000}
 
 
 def leg(part, tier, shard, nshards):
-    P.run_pool_leg(part, PROP, jobs(tier))
+    P.run_pool_leg(part, PROP, harnesses(tier), BUDGET[tier])
 
 
 LEGS = {"constructor": leg_ctor, "schedules": leg}
@@ -103,7 +104,8 @@ META = {
     "before start, restart, idle-timeout expiry, two submitters, and every generated program of length <=3 (quick) / <=4 (thorough) with at least two "
     "enqueues, x pool sizes, every schedule with <=K preemptions and <=T early timer firings; non-trivial = execution with a choice point / constructor "
     "call whose outcome the rule defines",
-    "bounds": {"quick": {"K": 1, "T": 1, "sizes": "(1,0) (2,0) (2,1) (2,2) (3,0) (3,1)"}, "thorough": {"K": "1-2", "T": 1, "sizes": "all eight"}},
+    "bounds": {"quick": {"levels": "iterative (K,T) ladder (0,0) (1,0) (1,1) (2,1) (3,1) (3,2) (4,2) per harness while the predicted size of the next level is <= 1200 executions; deepest completed level per harness in notes.completed_bounds", "sizes": "(1,0) (1,1) (2,0) (2,1) (2,2) (3,0) (3,1)"},
+               "thorough": {"levels": "same ladder, predicted size <= 60000", "sizes": "all eight"}},
     "assumptions": [
         "a worker counts as serving the queue from its creation to its last queue read (upper bound) / to its termination (lower bound, lenient)",
         "thread switches only at synchronisation operations (line boundaries of threadpool.py in the line harnesses)",
